@@ -36,7 +36,8 @@ def model_call(c):
     m = {"call": c["call"], "abi": c.get("abi", "p"), "fd": c.get("fd", 0), "dirfd": c.get("dirfd", 0), "path": c.get("path", ""),
          "abs": c.get("abs", False), "oflags": c.get("oflags", 0), "rd": c.get("rd", False), "wr": c.get("wr", False), "app": c.get("app", False),
          "segs": c.get("segs", []), "lens": c.get("lens", []), "offset": w8(c.get("offset", 0)), "delta": w8(c.get("delta", 0)),
-         "whence": c.get("whence", 0), "bytes": c.get("bytes", [])}
+         "whence": c.get("whence", 0), "bytes": c.get("bytes", []), "target": c.get("target", ""), "buflen": c.get("buflen", 0),
+         "path2": c.get("path2", ""), "parent": c.get("parent", ""), "parent2": c.get("parent2", ""), "under": c.get("under", [])}
     return m
 
 
@@ -85,6 +86,8 @@ def run_history(exe, calls, sandbox_root, hid, setup=(), argv=(), env=(), ls_aft
         p = os.path.join(sb, s["path"])
         if s["call"] == "mkdirs":
             os.makedirs(p, exist_ok=True)
+        elif s["call"] == "mklink":
+            os.symlink(s["target"], p)
         else:
             with open(p, "wb") as f:
                 f.write(bytes(s["bytes"]))
@@ -156,6 +159,17 @@ def expected_writes(c, m, sandbox):
         if not o.get("skip"):
             put(STAT + (32 if p1 else 24), o["size"])
         put(STAT + 16, [o["ftype"]]) if not o.get("skip") or o["ftype"] == 3 else None
+    elif k == "pathstat":
+        p1 = c.get("abi", "p") == "p"
+        free = set(range(STAT, STAT + (64 if p1 else 56)))
+        if not o.get("skip"):
+            put(STAT + (32 if p1 else 24), o["size"])
+        put(STAT + 16, [o["ftype"]])
+    elif k == "readlink":
+        t = o["target"].encode()
+        n = min(len(t), o["buflen"])
+        put(R1, le(n, 4))
+        put(RBUF, list(t[:n]))
     elif k == "prestat":
         put(R1, le(0, 4) + le(len(sandbox.encode()), 4))
     elif k == "prestatname":
@@ -194,6 +208,10 @@ def compare_ls(m, a):
         if f["kind"] == "dir":
             if g["type"] != "dir":
                 return "%s should be a directory" % p
+            continue
+        if f["kind"] == "link":
+            if g["type"] != "link":
+                return "%s should be a symbolic link" % p
             continue
         size = int.from_bytes(bytes(f["size"]), "little")
         if g["type"] != "file" or g["size"] != size:
